@@ -239,3 +239,63 @@ def bisect_crash(make_cmd, lo, hi, cwd=None, env=None):
         else:
             return None  # not reproducible in isolation
     return lo
+
+
+# ---- helpers shared by the Rust engines built on simcore::runner ------------------------------------
+
+def run_engine_native(binary, sub, seed, n, prop, label, threads=None):
+    """Runs `binary <sub...> run` over run indices [0, n). Returns (stats|None, [violation lines]).
+    A process that dies (abort in an extern "C" frame, SIGSEGV from a real double free, ...) is bisected
+    down to the first run that kills a fresh process; that trace becomes the replay file."""
+    threads = threads or NCPU
+    os.makedirs(REPLAYS, exist_ok=True)
+    args = [binary] + sub + ["run", "--seed", str(seed), "--from", "0", "--to", str(n), "--threads", str(threads), "--out", REPLAYS]
+    rc, out, err = run_capture(args)
+    if rc == 2:
+        raise HarnessError("%s: harness error\n%s\n%s" % (label, out[-2000:], err[-2000:]))
+    stats, viols = parse_stats(out)
+    if rc in (0, 1) and stats is not None:
+        return stats, viols
+    first = bisect_crash(lambda a, c: [binary] + sub + ["run", "--seed", str(seed), "--from", str(a), "--to", str(c), "--threads", "1", "--out", "-"], 0, n)
+    if first is None:
+        raise HarnessError("%s died (rc=%s) but no single run reproduces it\n%s" % (label, rc, err[-3000:]))
+    _, tr, _ = run_capture([binary] + sub + ["gen", "--seed", str(seed), "--run", str(first)])
+    p = save_replay("%s-%s-crash-%d-%d.trace" % (prop, label, seed, first), tr + "# property %s\n# oracle CRASH (the process died while executing this trace)\n" % prop)
+    return None, ["VIOLATION property=%s replay=%s oracle=CRASH engine=%s seed=%d run=%d" % (prop, p, label, seed, first)]
+
+
+def run_engine_miri(package, sub, seed, shapes, procs, prop, label, repo=None):
+    """Executes the first trace of each new shape under Miri, fanned out over `procs` interpreter
+    processes (disjoint run-index ranges). Returns ([stats...], [violation lines])."""
+    from concurrent.futures import ThreadPoolExecutor
+    cmd, cwd = miri_cmd(package, repo)
+    per = (shapes + procs - 1) // procs
+    env = dict(ENV)
+    env.pop("MIRIFLAGS", None)
+
+    def one(k):
+        a = sub + ["run", "--seed", str(seed), "--from", str(k * 10_000_000), "--to", str((k + 1) * 10_000_000), "--distinct-shapes", str(per), "--out", "-"]
+        return run_capture(cmd + a, cwd=cwd, env=env)
+    results = [one(0)]  # also builds, so the fan-out below does not race on the target dir
+    if procs > 1:
+        with ThreadPoolExecutor(max_workers=min(procs - 1, NCPU)) as ex:
+            results += list(ex.map(one, range(1, procs)))
+    all_stats, violations = [], []
+    for k, (rc, out, err) in enumerate(results):
+        stats, viols = parse_stats(out)
+        if rc == 1 and viols:
+            rep = extract_block(out, "REPLAY") or ""
+            p = save_replay("%s-%s-miri-%d-%d.trace" % (prop, label, seed, k), rep)
+            violations += [v.replace("replay=-", "replay=" + p) for v in viols]
+        elif rc != 0 or stats is None:
+            if "Undefined Behavior" in err or "memory leaked" in err:
+                # find which trace: re-run sequentially is expensive; keep Miri's report as the replay artefact,
+                # together with the exact command that reproduces it
+                p = save_replay("%s-%s-miri-ub-%d-%d.txt" % (prop, label, seed, k),
+                                "# Miri reported undefined behaviour / a leak.\n# reproduce: (cd %s && %s %s)\n%s" % (cwd, " ".join(cmd), " ".join(sub + ["run", "--seed", str(seed), "--from", str(k * 10_000_000), "--to", str((k + 1) * 10_000_000), "--distinct-shapes", str(per), "--out", "-"]), err[-12000:]))
+                violations.append("VIOLATION property=%s replay=%s oracle=MIRI-UB engine=%s seed=%d part=%d" % (prop, p, label, seed, k))
+            else:
+                raise HarnessError("miri run of %s failed (rc=%s)\n%s" % (label, rc, err[-4000:]))
+        if stats:
+            all_stats.append(stats)
+    return all_stats, violations
